@@ -8,6 +8,7 @@ from ..core import rule, VERIF
 from ..index import AnalysisError, dotted, src, walk_no_nested, names_in
 from ..consteval import Evaluator, Unfoldable, TOP, fold
 from ..objeval import ObjInterpreter, Obj, Opaque
+from ..util import arg, src_canon
 from .slots import LOADER, BASEDEMUX, DEMUXMODS, P
 
 MD = P + 'modularDemultiplexer/'
@@ -241,34 +242,81 @@ def r2(ctx):
 def r4(ctx):
     f = ctx.fn(BASEDEMUX, 'UmiBarcodeDemuxMethod.demultiplex')
     n = 0
-    local = {s_.targets[0].id: s_.value for s_ in walk_no_nested(f) if isinstance(s_, ast.Assign) and isinstance(s_.targets[0], ast.Name)}
-    for s_ in sorted([x for x in walk_no_nested(f) if isinstance(x, ast.Assign) and isinstance(x.targets[0], ast.Name)], key=lambda x: x.lineno):
-        t = s_.targets[0].id
-        cut = [x for x in walk_no_nested(s_.value) if isinstance(x, ast.Subscript) and isinstance(x.value, ast.Attribute) and x.value.attr in ('sequence', 'qual') and not isinstance(x.slice, ast.Constant)]
-        if not cut or s_.value is not cut[0]:
-            continue
-        role = 'barcode' if 'barcode' in t.lower() else ('umi' if 'umi' in t.lower() else None)
+    # roles are decided by where a value ends up (never by the spelling of a local): the whitelist lookup / the `bc` tag receive the
+    # barcode bases, `RX` the UMI bases, `RQ` the UMI qualities
+    local = {}
+    for s_ in sorted([x for x in walk_no_nested(f) if isinstance(x, ast.Assign) and len(x.targets) == 1 and isinstance(x.targets[0], ast.Name)], key=lambda x: x.lineno):
+        local.setdefault(s_.targets[0].id, []).append(s_.value)
+
+    def resolve(e, depth=0):
+        """the expression a sink value denotes, through single-definition locals"""
+        while isinstance(e, ast.Name) and e.id in local and len(local[e.id]) == 1 and depth < 4:
+            e = local[e.id][0]
+            depth += 1
+        return e
+    sinks = []
+    for c in walk_no_nested(f):
+        if isinstance(c, ast.Call) and isinstance(c.func, ast.Attribute):
+            if c.func.attr == 'getIndexCorrectedBarcodeAndHammingDistance':
+                v = arg(c, 1, 'barcode')
+                if v is not None:
+                    sinks.append(('whitelist lookup', 'barcode', 'sequence', v, c))
+            if c.func.attr == 'addTagByTag' and c.args and isinstance(c.args[0], ast.Constant) and len(c.args) > 1:
+                sinks.append((f'tag {c.args[0].value}', None, None, c.args[1], c))
+            if c.func.attr == 'update' and src(c.func.value).endswith('.tags') and c.args and isinstance(c.args[0], ast.Dict):
+                for k, v in zip(c.args[0].keys, c.args[0].values):
+                    if isinstance(k, ast.Constant):
+                        sinks.append((f'tag {k.value}', None, None, v, c))
+        if isinstance(c, ast.Assign) and len(c.targets) == 1 and isinstance(c.targets[0], ast.Subscript) and src(c.targets[0].value).endswith('.tags') \
+                and isinstance(c.targets[0].slice, ast.Constant):
+            sinks.append((f'tag {c.targets[0].slice.value}', None, None, c.value, c))
+    ROLE = {'tag bc': ('barcode', 'sequence'), 'tag RX': ('umi', 'sequence'), 'tag RQ': ('umi', 'qual')}
+    for name, role, field, v, node in sinks:
         if role is None:
-            continue
+            if name not in ROLE:
+                continue
+            role, field = ROLE[name]
+        e = resolve(v)
         n += 1
+        cut = e if isinstance(e, ast.Subscript) and isinstance(e.value, ast.Attribute) and e.value.attr in ('sequence', 'qual') else None
         used = set()
 
-        def collect(e, depth=0):
-            for x in ast.walk(e):
+        def collect(x_, depth=0):
+            for x in ast.walk(x_):
                 if isinstance(x, ast.Attribute) and isinstance(x.value, ast.Name) and x.value.id == 'self':
                     used.add(x.attr)
-                if isinstance(x, ast.Name) and x.id in local and depth < 3 and x.id != t:
-                    collect(local[x.id], depth + 1)
-        collect(cut[0].value.value)
-        collect(cut[0].slice)
+                if isinstance(x, ast.Name) and x.id in local and depth < 3:
+                    for d_ in local[x.id]:
+                        collect(d_, depth + 1)
+        if cut is not None:
+            collect(cut.value.value)
+            collect(cut.slice)
         want = {f'{role}Read', f'{role}Start', f'{role}Length'}
-        ok = used == want
-        ctx.emit('C02-R4', ok, BASEDEMUX, s_, f'`{t}` ({role}) is cut with self.{sorted(used)}' + ('' if ok else f' - expected exactly {sorted(want)} (coordinates of another role are mixed in)'),
-                 key=f'role-consistency:{t}', what=f'UmiBarcodeDemuxMethod: {t} is cut with another role\'s coordinates')
-    ctx.need('C02-R4', n, 4, 'role-named cuts in UmiBarcodeDemuxMethod.demultiplex')
-    cap = [x for x in walk_no_nested(f) if isinstance(x, ast.Assign) and src(x.targets[0]) in ('taggedRecord.sequence', 'taggedRecord.qualities')]
-    ok = len(cap) == 2 and {src(c.value) for c in cap} == {'record.sequence[self.sequenceCapture[rid]]', 'record.qual[self.sequenceCapture[rid]]'}
-    ctx.emit('C02-R4', ok, BASEDEMUX, cap[0] if cap else f, 'emitted sequence and qualities are the capture slice of the same mate (rid)', key='capture-same-mate')
+        ok = cut is not None and used == want and cut.value.attr == field
+        ctx.emit('C02-R4', ok, BASEDEMUX, node, f'{name} receives `{src(e)[:80]}`' + (f' = .{cut.value.attr} cut with self.{sorted(used)}' if cut is not None else ' (not a cut of the read)') +
+                 ('' if ok else f' - expected the .{field} cut with exactly {sorted(want)}'),
+                 key=f'role-consistency:{name}', what=f'UmiBarcodeDemuxMethod: {name} is not the {role} stretch of the read')
+    ctx.need('C02-R4', n, 4, 'role sinks (whitelist lookup, bc, RX, RQ) in UmiBarcodeDemuxMethod.demultiplex')
+    # emitted stretch: for IDX, (REC, TR) in enumerate(zip(records, tagged)): TR.sequence = REC.sequence[self.sequenceCapture[IDX]] (and qualities)
+    ok = False
+    cap = []
+    for l in walk_no_nested(f):
+        if isinstance(l, ast.For) and isinstance(l.iter, ast.Call) and dotted(l.iter.func) == 'enumerate' and l.iter.args and isinstance(l.iter.args[0], ast.Call) \
+                and dotted(l.iter.args[0].func) == 'zip' and isinstance(l.target, ast.Tuple) and len(l.target.elts) == 2 and isinstance(l.target.elts[0], ast.Name) \
+                and isinstance(l.target.elts[1], ast.Tuple) and len(l.target.elts[1].elts) == 2 and all(isinstance(x, ast.Name) for x in l.target.elts[1].elts):
+            zargs = [src(a) for a in l.iter.args[0].args]
+            recs = f.args.args[1].arg
+            if len(zargs) != 2 or recs not in zargs:
+                continue
+            pos = zargs.index(recs)
+            m = {l.target.elts[0].id: 'IDX', l.target.elts[1].elts[pos].id: 'REC', l.target.elts[1].elts[1 - pos].id: 'TR'}
+            got = {}
+            for a in l.body:
+                if isinstance(a, ast.Assign) and len(a.targets) == 1:
+                    got[src_canon(a.targets[0], m)] = src_canon(a.value, m)
+                    cap.append(a)
+            ok = got.get('TR.sequence') == 'REC.sequence[self.sequenceCapture[IDX]]' and got.get('TR.qualities') == 'REC.qual[self.sequenceCapture[IDX]]'
+    ctx.emit('C02-R4', ok, BASEDEMUX, cap[0] if cap else f, 'emitted sequence and qualities are the capture slice of the same mate (position in the zip of records and tagged records)', key='capture-same-mate')
     init = ctx.fn(BASEDEMUX, 'UmiBarcodeDemuxMethod.__init__')
     t = src(init)
     ok = 'self.sequenceCapture[barcodeRead] = slice(barcodeLength + umiLength, None)' in t.replace('\n', ' ').replace('  ', '').replace('( ', '(') or \
@@ -444,9 +492,30 @@ def r8(ctx):
     gone = [p_ for p_ in pinned if p_ not in cur]
     ctx.emit('C02-R8', not gone, LOADER, None, 'every pinned strategy is still registered and resolvable' if not gone else f'pinned strategies no longer resolved: {gone}', key='pinned-present', nontrivial=False)
     # tag provenance in the two base classes
-    for q, rawname in (('UmiBarcodeDemuxMethod.demultiplex', 'rawBarcode'), ('ScatteredUmiBarcodeDemuxMethod.demultiplex', 'raw_barcode')):
+    for q in ('UmiBarcodeDemuxMethod.demultiplex', 'ScatteredUmiBarcodeDemuxMethod.demultiplex'):
         f = ctx.fn(BASEDEMUX, q)
-        res = [s for s in walk_no_nested(f) if isinstance(s, ast.Assign) and isinstance(s.targets[0], ast.Tuple) and 'getIndexCorrectedBarcodeAndHammingDistance' in src(s.value)]
+        defs = {}
+        for s_ in walk_no_nested(f):
+            if isinstance(s_, ast.Assign) and len(s_.targets) == 1:
+                t_ = s_.targets[0]
+                if isinstance(t_, ast.Name):
+                    defs.setdefault(t_.id, []).append(s_.value)
+                elif isinstance(t_, ast.Tuple) and isinstance(s_.value, ast.Tuple) and len(t_.elts) == len(s_.value.elts):
+                    for a_, v_ in zip(t_.elts, s_.value.elts):
+                        if isinstance(a_, ast.Name):
+                            defs.setdefault(a_.id, []).append(v_)
+
+        def kind_of(name):
+            """(field, role attrs) a local was cut from: field in {'sequence','qual'}"""
+            out = set()
+            for v_ in defs.get(name, []):
+                t_ = src(v_)
+                fld = 'sequence' if ('.sequence[' in t_ or 'apply_slices_seq' in t_) else ('qual' if ('.qual[' in t_ or 'apply_slices_qual' in t_) else None)
+                attrs = {x.attr for x in ast.walk(v_) if isinstance(x, ast.Attribute) and isinstance(x.value, ast.Name) and x.value.id == 'self'}
+                role = 'barcode' if attrs and all(a_.lower().startswith('barcode') for a_ in attrs) else ('umi' if attrs and all(a_.lower().startswith('umi') for a_ in attrs) else None)
+                out.add((fld, role))
+            return out
+        res = [s_ for s_ in walk_no_nested(f) if isinstance(s_, ast.Assign) and isinstance(s_.targets[0], ast.Tuple) and 'getIndexCorrectedBarcodeAndHammingDistance' in src(s_.value)]
         up = [c for c in walk_no_nested(f) if isinstance(c, ast.Call) and isinstance(c.func, ast.Attribute) and c.func.attr == 'update' and c.args and isinstance(c.args[0], ast.Dict)]
         ok = False
         detail = 'tag update not found'
@@ -455,15 +524,17 @@ def r8(ctx):
             call = res[0].value
             kw = {k.arg: src(k.value) for k in call.keywords}
             mp = {k.value: src(v) for k, v in zip(up[0].args[0].keys, up[0].args[0].values) if isinstance(k, ast.Constant)}
-            rawdef = [s for s in walk_no_nested(f) if isinstance(s, ast.Assign) and rawname in names_in(s.targets[0])]
-            raw_from_seq = bool(rawdef) and ('.sequence[' in src(rawdef[0].value) or 'apply_slices_seq' in src(rawdef[0].value))
-            ok = mp.get('bc') == rawname and mp.get('BC') == corr and mp.get('bi') == idn and mp.get('MX') == 'self.shortName' and kw.get('barcode') == rawname and raw_from_seq
-            detail = f'bc <- {mp.get("bc")} (raw, cut from the read), BC <- {mp.get("BC")} (corrected), bi <- {mp.get("bi")}, MX <- {mp.get("MX")}; whitelist queried with {kw.get("barcode")}'
+            rawname = kw.get('barcode')
+            raw_from_seq = kind_of(rawname) == {('sequence', 'barcode')}
+            ok = mp.get('bc') == rawname and mp.get('BC') == corr and mp.get('bi') == idn and mp.get('MX') == 'self.shortName' and raw_from_seq
+            detail = f'bc <- {mp.get("bc")} (raw: {sorted(kind_of(rawname), key=str)}), BC <- {mp.get("BC")} (corrected), bi <- {mp.get("bi")}, MX <- {mp.get("MX")}; whitelist queried with {rawname}'
         ctx.emit('C02-R8', ok, BASEDEMUX, up[0] if up else f, f'{q}: {detail}', key=f'{q}:tag-provenance', what=f'{q}: a barcode tag records the wrong value (raw vs corrected)')
-        rx = [s for s in walk_no_nested(f) if isinstance(s, ast.Assign) and src(s.targets[0]) == "tr.tags['RX']"]
+        rx = [s_ for s_ in walk_no_nested(f) if isinstance(s_, ast.Assign) and isinstance(s_.targets[0], ast.Subscript) and src(s_.targets[0].value).endswith('.tags')
+              and isinstance(s_.targets[0].slice, ast.Constant) and s_.targets[0].slice.value == 'RX']
         rq = [c for c in walk_no_nested(f) if isinstance(c, ast.Call) and isinstance(c.func, ast.Attribute) and c.func.attr == 'addTagByTag' and c.args and isinstance(c.args[0], ast.Constant) and c.args[0].value == 'RQ']
-        okx = len(rx) == 1 and len(rq) == 1 and src(rx[0].value) in ('umi',) and src(rq[0].args[1]) in ('umiQual', 'umi_qual')
-        ctx.emit('C02-R8', okx, BASEDEMUX, rx[0] if rx else f, f'{q}: RX <- {src(rx[0].value) if rx else None}, RQ <- {src(rq[0].args[1]) if rq else None}', key=f'{q}:umi-tags', nontrivial=False)
+        okx = len(rx) == 1 and len(rq) == 1 and kind_of(src(rx[0].value)) == {('sequence', 'umi')} and kind_of(src(rq[0].args[1])) == {('qual', 'umi')}
+        ctx.emit('C02-R8', okx, BASEDEMUX, rx[0] if rx else f, f'{q}: RX <- {src(rx[0].value) if rx else None} {sorted(kind_of(src(rx[0].value))) if rx else ""}, '
+                 f'RQ <- {src(rq[0].args[1]) if rq else None} {sorted(kind_of(src(rq[0].args[1]))) if rq else ""}', key=f'{q}:umi-tags', nontrivial=False)
 
 
 META = {
